@@ -28,7 +28,7 @@ var apiFiles = []treeFile{
 	{Name: "layouts/main", Src: "<h>@reserve(\"title\")</h><b>@reserve(\"content\")</b><p>100% %d %s %%</p>"},
 	{Name: "components/c", Src: "[{{ n }}:@slot]"},
 	{Name: "ok", Src: "@use(\"~main\")@insert(\"title\", who.upper() + items[0].str())@insert(\"content\")@each(x in items)({{ x }}{{ loop.last ? \"\" : \",\" }})@end" +
-		"@component(\"~c\", {n: who})@slot{{ who.upper() }}@end@end@end"},
+		"@component(\"~c\", {n: who})@slot{{ who.upper() }}@end@end@component(\"~c\", {n: 2})@slot second {{ items[1] }}@end@end@end"},
 	{Name: "ok2", Src: "@use(\"~main\")@insert(\"content\")second page of {{ who }} {{ \"<i>&amp;&</i>\" }}@component(\"~c\", {n: 2})@end@insert(\"title\", \"Second\")"},
 	{Name: "bare", Src: "@use(\"~main\")a page of the layout that inserts nothing"},
 	{Name: "bad", Src: "PARTIAL-OUTPUT-MARKER {{ who }}\n{{ items[0] / 0 }} after"},
@@ -89,7 +89,7 @@ const fnMix = `|{{ items.join("-") }}|{{ items.reverse() }}|{{ items.slice(1) }}
 	`|{{ false.then("y", "n") }}|{{ {a: 1, b: [2, 3]} }}|@dump(items)|{{ items.shuffle().len() }}|{{ items.rand() > 0 }}`
 
 // the pages contain per cent signs: what Response writes is the page, byte for byte
-const okPage = "<h>BO1</h><b>(1,)(2,)(3)[Bo:BO]</b><p>100% %d %s %%</p>"
+const okPage = "<h>BO1</h><b>(1,)(2,)(3)[Bo:BO][2: second 2]</b><p>100% %d %s %%</p>"
 const customPage = "<custom>error page 50% %v</custom>"
 
 // apiRec is a struct type every call passes; apiDataN adds a value of a struct type no earlier call has used
